@@ -25,7 +25,110 @@ func runC08(c *mon.Ctx) {
 		if i%3 == 0 {
 			c08ImmediateClose(c, r.Fork(8))
 		}
+		c08SparseShutdown(c, r.Fork(9))
 	})
+}
+
+// c08SparseShutdown: shutdowns of applications that recorded little - only
+// timers (delivered at once, never buffered), only one kind of buffered metric,
+// or nothing at all since the last pass. Whatever was delivered before Close
+// returned must be followed by a Flush; a closable reporter is closed once,
+// after that flush.
+func c08SparseShutdown(c *mon.Ctx, r *mon.Rand) {
+	cached := r.Bool()
+	closable := r.Bool()
+	var rec *mon.Recorder
+	opts := tally.ScopeOptions{OmitCardinalityMetrics: !r.Chance(1, 4)}
+	if cached {
+		cr := mon.NewCachedRec(true)
+		rec = cr.Recorder
+		opts.CachedReporter = cr
+		if closable {
+			opts.CachedReporter = mon.CachedRecCloser{CachedRec: cr}
+		}
+	} else {
+		pr := mon.NewPlainRec(true)
+		rec = pr.Recorder
+		opts.Reporter = pr
+		if closable {
+			opts.Reporter = mon.PlainRecCloser{PlainRec: pr}
+		}
+	}
+	interval := time.Duration(0)
+	if r.Bool() {
+		interval = time.Duration(r.Range(200, 5000)) * time.Microsecond
+	}
+	what := r.Pick("timers", "timers", "counter", "gauge", "histogram", "nothing")
+	passBefore := r.Bool()
+	desc := map[string]interface{}{"scenario": "sparse shutdown", "cached": cached, "closable_reporter": closable, "interval_us": interval.Microseconds(), "recorded": what, "a_pass_before_the_last_records": passBefore, "cardinality_metrics": !opts.OmitCardinalityMetrics}
+	c.Eval(1)
+	stop := c.Watchdog(120*time.Second, "close-or-recorders-do-not-return", desc)
+	defer stop()
+	var closeErr error
+	if c.Guard("panic-sparse-shutdown", func() interface{} { return desc }, func() {
+		root, closer := vNewRoot(opts, interval, uint(r.Range(0, 2)))
+		sc := root.Tagged(map[string]string{"k": "v"})
+		tm, ctr, g, h := sc.Timer("t"), sc.Counter("c"), sc.Gauge("g"), sc.Histogram("h", tally.ValueBuckets{1})
+		record := func() {
+			switch what {
+			case "timers":
+				for k := 0; k < r.Range(1, 4); k++ {
+					tm.Record(time.Duration(k+1) * time.Millisecond)
+				}
+			case "counter":
+				ctr.Inc(3)
+			case "gauge":
+				g.Update(4)
+			case "histogram":
+				h.RecordValue(0.5)
+			}
+		}
+		if passBefore {
+			record()
+			tally.VerifReportPass(root)
+		}
+		record()
+		rec.Mark("close-called", 0)
+		closeErr = closer.Close()
+		rec.Mark("close-returned", 0)
+	}) {
+		return
+	}
+	if closeErr != nil {
+		c.Violation("close-error-invented", map[string]interface{}{"why": closeErr.Error(), "case": desc})
+	}
+	log, _, _ := rec.Snapshot()
+	var lastDelivery, lastFlush, closeSeq, returned int64 = -1, -1, -1, -1
+	closes := 0
+	for _, ev := range log {
+		switch ev.Kind {
+		case mon.EvCounter, mon.EvGauge, mon.EvTimer, mon.EvHistV, mon.EvHistD:
+			lastDelivery = ev.Seq
+		case mon.EvFlush:
+			lastFlush = ev.Seq
+		case mon.EvClose:
+			closes++
+			closeSeq = ev.Seq
+		case mon.EvMarker:
+			if ev.Marker == "close-returned" {
+				returned = ev.Seq
+			}
+		}
+	}
+	if lastDelivery > returned || lastFlush > returned {
+		c.Violation("delivery-after-close-returned", map[string]interface{}{"why": "a delivery or flush is logged after Close had returned", "case": desc})
+	}
+	if lastDelivery >= 0 && lastFlush < lastDelivery {
+		c.Violation("no-flush-after-final-delivery", map[string]interface{}{"why": "the last delivery before Close returned (" + what + ") is not followed by a Flush", "case": desc})
+	}
+	if closable && (closes != 1 || closeSeq < lastFlush || closeSeq < lastDelivery) {
+		c.Violation("reporter-close-count", map[string]interface{}{"why": fmt.Sprintf("a closable reporter was closed %d times (or before the final flush)", closes), "case": desc})
+	}
+	if !closable && closes != 0 {
+		c.Violation("reporter-close-count", map[string]interface{}{"why": "a reporter without io.Closer was closed?", "case": desc})
+	}
+	c.Event("sparse-shutdowns", 1)
+	c.Distinct(mon.Hash64("sparse", fmt.Sprint(desc)))
 }
 
 func reportLoopGoroutines() int {
